@@ -70,4 +70,24 @@ TEXTS = {
         'ref': 'DESIGN.md 4 C19; 3 LST1 LST5 TAB11',
     },
 }
+TEXTS.update({
+    'C01': {
+        'level': "Forward dataflow (abstract interpretation with intervals on length-offset, raw-cursor distances, integer locals and symbolic-index facts) over every function of the parse family: every read of the input is shown to be covered by a guard on every path, callee entry requirements are inferred by a call-graph fixpoint and checked at every call site, local arrays and sprintf targets stay in bounds, nothing is stored through the input, every recursion cycle is depth-gated and every loop steps forward. This is exhaustive over paths of the current source, where tests with zero-terminated literals cannot see an over-read of one byte.",
+        'note': COMMON_NOTE + " Entry assumption = API contract (value[0..buffer_length) readable). Not decided: write bound of parse_string's output block, leak freedom (C03/C08 rules), walkability of the result, arithmetic UB beyond TAB7.",
+        'technique': 'static analysis: forward dataflow / interval abstract interpretation on an own CFG with lowered conditions; call-graph fixpoint for callee requirements; SCC-based recursion-gate check',
+        'ref': 'DESIGN.md 4 C01; 3 BND1 BND2 BND4 BND6 EFF7 TAB1 TAB2',
+    },
+    'C10': {
+        'level': "Decides the reliability clauses of the failure/success publication: published error position proven inside the buffer (dataflow), both failure outputs computed from one value (def-use on the CFG), global error reset dominating all returns and unreachable-from-store on success (dominance/reachability), termination check on every path under the flag (must-pass-through), guarded read of the terminator (BND1).",
+        'note': COMMON_NOTE + " Not decided: parse_end <= value+length on success, prefix re-parse equality.",
+        'technique': 'static analysis: dataflow bounds facts + dominance / reachability / def-use checks on the entry function',
+        'ref': 'DESIGN.md 4 C10; 3 BND5 BND1 TAB2',
+    },
+    'C13': {
+        'level': "Decides the safety sentence (reads and writes stay within the terminator, result no longer, loops terminate as far as cursor progress goes) by dataflow on NUL-terminated cursors (non-terminator byte counts), an in-place lag analysis of write vs read cursor, and a gap analysis of the write cursor; plus the scanner rule that every backslash pair is consumed alike. Value preservation and idempotence are not decided.",
+        'note': COMMON_NOTE + " Entry assumption: json is a NUL-terminated string (API contract).",
+        'technique': 'static analysis: forward dataflow (non-terminator counts, read/write lag, must-written sets) with inferred callee requirements',
+        'ref': 'DESIGN.md 4 C13; 3 BND3 OUT5 OUT6 BND6 TAB13',
+    },
+})
 NOT_APPLICABLE = {}
